@@ -82,11 +82,36 @@ class Ctx:
         return v
 
 
+def guarded(C, name, fn):
+    """the conversion functions are total on moment vectors: an exception of the real code is a violation, not a harness crash"""
+    def wrapped(*a, **k):
+        try:
+            return fn(*a, **k)
+        except Exception as e:  # noqa
+            C.records.append({"kind": "violation", "key": f"{name}|raises|{type(e).__name__}", "tag": name,
+                              "what": f"{name} raises {type(e).__name__}: {str(e)[:120]} on a symbolic moment vector", "replay": {"function": name}})
+            raise _Skip()
+    return wrapped
+
+
+class _Skip(Exception):
+    pass
+
+
 def job_conversions(_):
+    C = Ctx()
+    try:
+        return _job_conversions(C)
+    except _Skip:
+        return {"records": C.records, "stats": C.stats, "checked": C.checked, "mutants": C.mutants}
+
+
+def _job_conversions(C):
     import sympy as sp
     import z3
-    from utils import raw_moments_to_centrals, raw_moments_to_cumulants
-    C = Ctx()
+    import utils
+    raw_moments_to_centrals = guarded(C, "raw_moments_to_centrals", utils.raw_moments_to_centrals)
+    raw_moments_to_cumulants = guarded(C, "raw_moments_to_cumulants", utils.raw_moments_to_cumulants)
     # generic finite law: atoms x1..x3, weights w1, w2, 1 - w1 - w2 (substituted, so that identities are polynomial)
     xs = sp.symbols("x1 x2 x3")
     w1, w2 = sp.symbols("w1 w2")
